@@ -205,6 +205,113 @@ C13_GENS = {
 }
 
 
+# ------------------------------------------------------------------ render
+def penc(v) -> str:
+    """a Python value (the kinds that occur in a dependency and in what `as_html_tags` returns) as a pval term"""
+    import htmltools
+    from packaging.version import Version
+    if v is None:
+        return "N"
+    if v is True:
+        return "T"
+    if v is False:
+        return "F"
+    if type(v) is int:
+        return f"I {v}"
+    if type(v) is str:
+        return S(v)
+    if type(v) is htmltools.HTML:
+        return H(v.as_string())
+    if type(v) is list:
+        return "L [ " + "".join(penc(x) + " " for x in v) + "]"
+    if type(v) is tuple:
+        return "U [ " + "".join(penc(x) + " " for x in v) + "]"
+    if isinstance(v, dict):
+        return "M [ " + "".join(es(k) + " " + penc(x) + " " for k, x in v.items()) + "]"
+    if isinstance(v, Version):
+        return f"O Version [ rank I {getattr(v, '_rank', 0)} text {S(str(v))} ]"
+    if type(v) is htmltools.TagList:
+        return "O TagList [ data " + penc(list(v.data)) + " ]"
+    if type(v) is htmltools.Tag:
+        return f"O Tag [ name {penc(v.name)} attrs {penc(dict(v.attrs))} children {penc(v.children)} add_ws {penc(v.add_ws)} ]"
+    raise ValueError(type(v))
+
+
+def real_dep(rng):
+    """a real dependency of every shape the constructor accepts (URL / directory / no source, 0-2 items of each kind, head)"""
+    from htmltools import HTMLDependency, HTML, tags
+    name = rng.choice(["lib", "a b", "jq", "é", "x<y", "n&m", text(rng) or "z"])
+    version = rng.choice(GOOD_VERSIONS)
+    src = rng.choice([None, {"href": "https://x/y"}, {"href": "/r&s"}, {"subdir": "www"}, {"subdir": "w w", "package": "htmltools"}])
+    kw = {}
+    if rng.random() < 0.7:
+        kw["script"] = [{"src": rng.choice(["a.js", "x y.js", "ü.js", "q'\"<.js"]), **({"defer": ""} if rng.random() < 0.3 else {})}
+                        for _ in range(rng.choice([1, 1, 2]))]
+    if rng.random() < 0.5:
+        kw["stylesheet"] = [{"href": rng.choice(["s.css", "t&u.css"])} for _ in range(rng.choice([1, 2]))]
+    if rng.random() < 0.4:
+        kw["meta"] = {"name": "viewport", "content": rng.choice(["width=device-width", "a\"b"])}
+    r = rng.random()
+    if r < 0.3:
+        kw["head"] = rng.choice(["<script>h()</script>", "", "<x>", "plain & text", "</script>"])
+    elif r < 0.45:
+        kw["head"] = rng.choice([tags.meta(charset="utf-8"), HTML("<b>"), [tags.link(href="z"), "te<xt"], tags.title("a", tags.b("c"))])
+    return HTMLDependency(name, version, source=src, all_files=rng.random() < 0.3, **kw)
+
+
+def dep_term(d, lp, iv, rank: int, table: bool = True) -> str:
+    """the dependency as the object the translated functions see: its attributes and, under `as_html_tags`, what the real
+    method answers for the argument pair of the line"""
+    fields = "".join(f"{k} {penc(v) if k != 'version' else f'O Version [ rank I {rank} text {S(str(v))} ]'} " for k, v in vars(d).items())
+    if table:
+        pairs = [(lp, iv)]
+        tbl = "L [ " + "".join(f"U [ {penc(a)} {penc(b)} {penc(d.as_html_tags(lib_prefix=a, include_version=b))} ] " for a, b in pairs) + "]"
+        fields += f"as_html_tags {tbl} "
+    return f"O HTMLDependency [ {fields}]"
+
+
+def _render(rng):
+    from packaging.version import Version
+    lp = rng.choice(["lib", "lib", None, "x/y", ""])
+    iv = rng.choice([True, True, False])
+    deps = [real_dep(rng) for _ in range(rng.choice([0, 1, 1, 2, 3]))]
+    if deps and rng.random() < 0.2:
+        deps.append(deps[0])
+    order = sorted({str(d.version) for d in deps}, key=Version)
+    dts = [dep_term(d, lp, iv, order.index(str(d.version))) for d in deps]
+    r = rng.random()
+    if r < 0.06:       # elements that are not dependencies / have no record for the pair
+        dts.append(rng.choice([S("not a dep"), "N", "I 1", "O HTMLDependency [ name " + S("n") + " version " + S("1") + " ]"]))
+    ph = rng.choice(["PH", "<meta data-foo>", "", "a", "</head>"])
+    n = rng.choice([0, 1, 1, 1, 2, 3])
+    body = text(rng) + "".join(ph + text(rng) for _ in range(n))
+    html_v = S(body) if rng.random() < 0.94 else rng.choice([H(body), "N", "I 1"])
+    ph_v = S(ph) if rng.random() < 0.9 else rng.choice(["N", H(ph), "I 1"])
+    deps_v = "L [ " + "".join(t + " " for t in dts) + "]"
+    if rng.random() < 0.04:
+        deps_v = rng.choice(["N", "U [ ]", "I 1"])
+    obj = f"O HTMLTextDocument [ _html {html_v} _deps {deps_v} _deps_replace_pattern {ph_v} ]"
+    # the table: under which rank the implementation side reports the (deep-copied) Version objects back
+    return [(t, True, i, t) for i, t in enumerate(order)], f"[ {obj} {penc(lp)} {penc(iv)} ]"
+
+
+def _taglist_render(rng):
+    lp, iv = "lib", True
+    items = []
+    for _ in range(rng.choice([0, 1, 2])):
+        d = real_dep(rng)
+        items += list(d.as_html_tags(lib_prefix=lp, include_version=iv).data)
+    if rng.random() < 0.3:
+        items.append(rng.choice(["te<xt", 3]) if rng.random() < 0.5 else real_dep(rng))
+    from htmltools import HTMLDependency
+    terms = [dep_term(x, lp, iv, 0, table=False) if isinstance(x, HTMLDependency) else penc(x) for x in items]
+    return [], "[ O TagList [ data L [ " + "".join(t + " " for t in terms) + "] ] ]"
+
+
+C13_GENS["HTMLTextDocument_render"] = _render
+C13_GENS["TagList_render"] = _taglist_render
+
+
 def register(GENS):
     pass
 
